@@ -4,6 +4,7 @@ import (
 	"fmt"
 	"go/ast"
 	"go/constant"
+	"go/token"
 	"go/types"
 	"reflect"
 	"sort"
@@ -53,46 +54,59 @@ func constTableOf(p *core.Prog, f *core.Fn, enum *types.Named) (table map[string
 		}
 		return "", false
 	}
-	var sw *ast.SwitchStmt
-	core.Walk(f.Decl.Body, false, func(x ast.Node) bool {
-		if s, ok := x.(*ast.SwitchStmt); ok && sw == nil {
-			sw = s
+	// path form (switch over constants, if / else-if chain of == tests, any polarity): a path on which the input was found
+	// equal to constant K and that returns constant V contributes K -> V; the path on which every test failed gives the default
+	{
+		g := core.GraphOf(f)
+		cases := enumTests(f.Decl.Body)
+		sig := f.Obj.Type().(*types.Signature)
+		var input types.Object
+		if sig.Recv() != nil {
+			input = sig.Recv()
+		} else if sig.Params().Len() > 0 {
+			input = sig.Params().At(0)
 		}
-		return true
-	})
-	if sw != nil {
-		for _, cs := range sw.Body.List {
-			cc := cs.(*ast.CaseClause)
-			var ret string
-			for _, st := range cc.Body {
-				if rs, ok := st.(*ast.ReturnStmt); ok && len(rs.Results) >= 1 {
-					if v, ok := render(rs.Results[0]); ok {
-						ret = v
+		paths, okP := g.Paths(core.Entry, core.Exit, 5000)
+		nTests := 0
+		if okP && input != nil {
+			for _, path := range paths {
+				key, nEq := "", 0
+				val := ""
+				for i, id := range path {
+					n := g.Nodes[id]
+					if n == nil {
+						continue
+					}
+					if tk, isC := g.Taken(path, i); isC {
+						if subj, k, eq, ok := enumCond(cases, n, tk); ok && core.MentionsObj(info, resolveLocal(info, f.Decl.Body, subj), input) {
+							nTests++
+							if kr, okr := render(k); okr && eq {
+								key = kr
+								nEq++
+							}
+						}
+						continue
+					}
+					if rs, ok := n.(*ast.ReturnStmt); ok && len(rs.Results) >= 1 {
+						if v, okv := render(rs.Results[0]); okv {
+							val = v
+						}
 					}
 				}
-			}
-			if cc.List == nil {
-				def = ret
-				continue
-			}
-			for _, ce := range cc.List {
-				if k, ok := render(ce); ok && ret != "" {
-					if _, dup := table[k]; dup {
+				switch {
+				case nEq == 1 && val != "":
+					if old, dup := table[key]; dup && old != val {
 						return nil, "", false
 					}
-					table[k] = ret
+					table[key] = val
+				case nEq == 0 && val != "":
+					def = val
 				}
 			}
 		}
-		// a return after the switch is the default
-		for _, st := range f.Decl.Body.List {
-			if rs, ok := st.(*ast.ReturnStmt); ok && len(rs.Results) >= 1 {
-				if v, ok := render(rs.Results[0]); ok {
-					def = v
-				}
-			}
+		if nTests > 0 {
+			return table, def, len(table) > 0
 		}
-		return table, def, len(table) > 0
 	}
 	// map literal
 	var mapObj types.Object
@@ -268,9 +282,46 @@ func c17Aux(r *core.Run, p *core.Prog, typ string) {
 		if core.IsNil(info, val) {
 			continue
 		}
-		src := core.SelField(info, val)
+		// the same-named field of the receiver: a.X, &a.X, or helper(a.X / &a.X) where the helper hands back its argument or nil
+		strip := func(e ast.Expr) ast.Expr {
+			for {
+				e = ast.Unparen(e)
+				if u, ok := e.(*ast.UnaryExpr); ok && u.Op == token.AND {
+					e = u.X
+					continue
+				}
+				if st, ok := e.(*ast.StarExpr); ok {
+					e = st.X
+					continue
+				}
+				return e
+			}
+		}
+		sv := strip(val)
+		if c, ok := sv.(*ast.CallExpr); ok && len(c.Args) == 1 {
+			if fo, ok := core.Callee(info, c).(*types.Func); ok {
+				if h := p.FnOf(fo); h != nil {
+					hp := h.Obj.Type().(*types.Signature).Params().At(0)
+					identityOrNil := true
+					nRet := 0
+					core.Walk(h.Decl.Body, false, func(x ast.Node) bool {
+						if rs, ok := x.(*ast.ReturnStmt); ok && len(rs.Results) == 1 {
+							nRet++
+							if !core.IsNil(h.Info(), rs.Results[0]) && core.ObjOf(h.Info(), rs.Results[0]) != hp {
+								identityOrNil = false
+							}
+						}
+						return true
+					})
+					if identityOrNil && nRet > 0 {
+						sv = strip(c.Args[0])
+					}
+				}
+			}
+		}
+		src := core.SelField(info, sv)
 		okSrc := src != nil && src.Name() == fname
-		if sel, ok := ast.Unparen(val).(*ast.SelectorExpr); ok && core.ObjOf(info, sel.X) != recv {
+		if sel, ok := sv.(*ast.SelectorExpr); ok && core.ObjOf(info, sel.X) != recv {
 			okSrc = false
 		}
 		r.Check(rule, typ+":field:"+fname+":source", p.Rel(el.Pos()), okSrc, fmt.Sprintf("auxiliary field %s is filled from %s", fname, core.Str(val)))
